@@ -84,8 +84,10 @@ _INPLACE = {'ior': operator.ior, 'iand': operator.iand,
             'isub': operator.isub, 'ixor': operator.ixor}
 
 
-def apply_sut(ctx, t, op):
-    """Apply op to the real container; returns ('ok', value) | ('exc', name)."""
+def apply_sut(ctx, t, op, arg=_marker):
+    """Apply op to the real container; returns ('ok', value) | ('exc', name).
+    `arg`: a pre-built operand for update / in-place operators (the fault enumerators build
+    it before arming their interception points)."""
     name = op[0]
     if name == 'setitem':
         return outcome(t.__setitem__, op[1], op[2])
@@ -97,10 +99,11 @@ def apply_sut(ctx, t, op):
     if name in ('popitem', 'clear'):
         return outcome(getattr(t, name))
     if name == 'update':
-        r = outcome(t.update, build_arg(ctx, op[1], op[2]))
+        r = outcome(t.update, build_arg(ctx, op[1], op[2]) if arg is _marker else arg)
         return ('ok', None) if r[0] == 'ok' else r
     if name in _INPLACE:
-        arg = build_arg(ctx, op[1], op[2])
+        if arg is _marker:
+            arg = build_arg(ctx, op[1], op[2])
 
         def f():
             r = _INPLACE[name](t, arg)
